@@ -2,6 +2,7 @@ from typing import cast
 
 from xdsl.context import Context
 from xdsl.dialects import arith, builtin, scf
+from xdsl.ir import SSAValue
 from xdsl.passes import ModulePass
 from xdsl.pattern_rewriter import (
     PatternRewriter,
@@ -9,7 +10,10 @@ from xdsl.pattern_rewriter import (
     RewritePattern,
     op_type_rewrite_pattern,
 )
-from xdsl.transforms.canonicalization_patterns.utils import const_evaluate_operand
+from xdsl.transforms.canonicalization_patterns.utils import (
+    const_evaluate_operand,
+    const_evaluate_operand_attribute,
+)
 
 #  This pass flattens pairs nested loops into a single loop.
 #
@@ -28,7 +32,7 @@ from xdsl.transforms.canonicalization_patterns.utils import const_evaluate_opera
 #        # neither o nor i are used
 #
 #    These become:
-#    # (If K is constant and divides M)
+#    # (If K is constant and divides M, and with N rounded up to x plus a multiple of M)
 #    for i in range(x, N, K):
 #      f(A[i])
 #
@@ -36,6 +40,29 @@ from xdsl.transforms.canonicalization_patterns.utils import const_evaluate_opera
 #    for o in range(ol, ou * factor, os):
 #      # o is not used
 #
+
+
+def _whole_steps_ub(op: scf.ForOp, step: int, rewriter: PatternRewriter) -> SSAValue:
+    """
+    Returns an upper bound of the loop that is a whole number of steps away from its
+    lower bound and gives the same iterations: `lb + ceildiv(ub - lb, step) * step`.
+    The last iteration of the loop covers a full step even if `ub` cuts it short.
+    """
+    lb = const_evaluate_operand(op.lb)
+    ub_attr = const_evaluate_operand_attribute(op.ub)
+    if lb is not None and ub_attr is not None:
+        ub = ub_attr.value.data
+        if ub <= lb or not (padding := (lb - ub) % step):
+            return op.ub
+        new_ub_op = arith.ConstantOp(builtin.IntegerAttr(ub + padding, ub_attr.type))
+        rewriter.insert(new_ub_op)
+        return new_ub_op.result
+    diff_op = arith.SubiOp(op.ub, op.lb)
+    trips_op = arith.CeilDivSIOp(diff_op.result, op.step)
+    span_op = arith.MuliOp(trips_op.result, op.step)
+    new_ub_op = arith.AddiOp(op.lb, span_op.result)
+    rewriter.insert((diff_op, trips_op, span_op, new_ub_op))
+    return new_ub_op.result
 
 
 class FlattenNestedLoopsPattern(RewritePattern):
@@ -83,6 +110,9 @@ class FlattenNestedLoopsPattern(RewritePattern):
             return
         if (inner_step := const_evaluate_operand(inner_loop.step)) is None:
             return
+        if outer_step <= 0:
+            # Not a valid loop
+            return
 
         outer_index = outer_body.args[0]
         inner_index = inner_loop.body.block.args[0]
@@ -114,7 +144,7 @@ class FlattenNestedLoopsPattern(RewritePattern):
             # We can fuse
             user.result.replace_all_uses_with(inner_index)
             rewriter.erase(user)
-            new_ub = op.ub
+            new_ub = _whole_steps_ub(op, outer_step, rewriter)
             new_step = inner_loop.step
         else:
             if (outer_lb := const_evaluate_operand(op.lb)) is None:
